@@ -704,6 +704,7 @@ func rulesC02(c *Ctx) {
 	operandShapeC02(c)
 	binPrintC03(c, "C02.binprint")
 	silentPathRule(c, "C02.silentpath")
+	openerRule(c, "C02.opener")
 	formattersC02(c)
 	slotsC08(c)
 	// names and strings are printed through the quoting helpers: they must invert the lexer
